@@ -1,5 +1,6 @@
 import Martian.Props.C19
 open Martian.Props.C19
+#print axioms facts_marbl_layout
 #print axioms decode_encode_header
 #print axioms decode_encode_data
 #print axioms reader_total
